@@ -60,7 +60,7 @@ PATHS = ['/ok', '/rnd', '/empty', '/stream', '/red', '/ctx', '/x404', '/r409', '
          # bodies the application coded itself; a read-only render context
          '/pre/deflate', '/pre/deflate', '/pre/gzip', '/pre/br', '/roctx', '/roctx',
          # a body handed through untouched; responses that carry no Content-Type at all
-         '/rawpost', '/rawpost', '/rawpost', '/bareresp', '/bareresp', '/ownlength', '/ownlength', '/rowctx', '/rowctx', '/passthrough', '/passthrough', '/nocontent', '/nocontent', '/notmodified', '/notype']
+         '/prerendered', '/prerendered', '/prerendered', '/rawpost', '/rawpost', '/rawpost', '/bareresp', '/bareresp', '/ownlength', '/ownlength', '/rowctx', '/rowctx', '/passthrough', '/passthrough', '/nocontent', '/nocontent', '/notmodified', '/notype']
 # Cookie headers a client may send although this server never set them (index 0 = the jar as it is)
 COOKIES = [None, 'clastic_cookie=garbage', 'clastic_cookie=AAAA?k=InYi', 'clastic_cookie="\xc3\xa9?\xc3\xa9=1"', 'clastic_cookie=a?b',
            'clastic_cookie=aAAAA?k=InYi', 'clastic_cookie=AAAA?\xc3\xa9k=InYi&x=1', 'other=1; clastic_cookie=%%%', 'clastic_cookie=',
@@ -217,13 +217,18 @@ def routes():
         # the minimal response type (dispatch accepts any BaseResponse)
         return BaseResponse(BIG, mimetype='text/plain')
 
+    prerendered = [b'<html>', b'pre-rendered page ' * 400, b'</html>']     # built once, handed out with every response
+
+    def shared_chunks():
+        return Response(prerendered, mimetype='text/html')
+
     def size(n):
         # n compressible bytes: sizes sit on powers of two and their neighbours (buffer boundaries)
         return Response((b'0123456789abcdef' * (n // 16 + 1))[:n], mimetype='text/plain')
     return [('/ok', ok), ('/rnd', rndb), ('/empty', empty), ('/small', small), ('/text', text), ('/stream', stream), ('/red', red),
             ('/ctx', ctx, render_basic), ('/x404', x404), ('/r409', r409), ('/r404', r404), ('/nb', nb), ('/nbret', nbret),
             ('/r400nb', r400nb), ('/x503', x503), ('/boom', boom), ('/boomkey', boomkey), GET('/g', ok), POST('/form', form), ('/pre/deflate', pre_deflate), ('/pre/gzip', pre_gzip), ('/pre/br', pre_other),
-            ('/roctx', ro_ctx, render_mapping), ('/passthrough', passthrough), ('/ownlength', ownlength), POST('/rawpost', rawpost), ('/bareresp', bareresp), ('/rowctx', rowctx, render_row), ('/nocontent', nocontent), ('/notmodified', notmodified),
+            ('/roctx', ro_ctx, render_mapping), ('/passthrough', passthrough), ('/ownlength', ownlength), ('/prerendered', shared_chunks), POST('/rawpost', rawpost), ('/bareresp', bareresp), ('/rowctx', rowctx, render_row), ('/nocontent', nocontent), ('/notmodified', notmodified),
             ('/notype', notype), ('/b/', ok), ('/size/<n:int>', size), ('/vary', vary), ('/vary2', vary2)]
 
 
@@ -311,7 +316,7 @@ class C15(Check):
         for _ in range(rng.randint(6, 40)):
             ae = rng.randrange(len(AES))
             op = {'path': rng.choice(PATHS), 'method': rng.choice(METHODS), 'ae': ae, 'dt': 0, 'jitter': [], 'draws': [],
-                  'cookie': rng.randrange(len(COOKIES)) if rng.random() < 0.15 else 0, 'lean_environ': rng.random() < 0.2,
+                  'cookie': rng.randrange(len(COOKIES)) if rng.random() < 0.15 else 0, 'lean_environ': rng.choice([False, False, False, False, False, False, True, 'empty']),
                   'ua': rng.choice([None, None, None, 'Mozilla/4.0 (compatible; MSIE 6.0; Windows NT 5.1)', 'Mozilla/5.0 (Windows NT 10.0; Trident/7.0; rv:11.0) like Gecko', 'curl/8'])}
             if erng.random() < 0.3:
                 op['dt'] = erng.choice([0.001, 1, 59, 3600, -5, 86400 * 40])
@@ -482,6 +487,9 @@ class C15(Check):
                     if op['method'] != 'POST':
                         env.pop('CONTENT_TYPE', None)
                         env.pop('CONTENT_LENGTH', None)
+                        if op.get('lean_environ') == 'empty':
+                            env['CONTENT_LENGTH'] = ''        # "may be empty or absent" (PEP 3333)
+                            env['CONTENT_TYPE'] = ''
                     res.probe('environ-without-optional-keys')
                 return env
 
